@@ -141,14 +141,19 @@ def parse(text, harnesses):
             r["unwinding_failure"] = True
         if "Status: ERROR" in b or "out of memory" in b.lower():
             r["status"] = "ERROR"
-        # concrete playback values (regular format)
-        cv = re.search(r"let concrete_vals: Vec<Vec<u8>> = vec!\[(.*?)\n\s*\];", b, re.S)
-        if cv:
+        # concrete playback tests (regular format): one per failed check AND per satisfied cover;
+        # keep the ones generated for failed checks (kind != cover), in order
+        tests = []
+        for tm in re.finditer(r"/// Check for `(\w+)`: \"+(.*?)\"+\s*\n(.*?)let concrete_vals: Vec<Vec<u8>> = vec!\[(.*?)\n\s*\];", b, re.S):
+            kind, desc, _mid, body = tm.group(1), tm.group(2), tm.group(3), tm.group(4)
             vals = []
-            for vm in re.finditer(r"vec!\[([\d,\s]*)\]", cv.group(1)):
+            for vm in re.finditer(r"vec!\[([\d,\s]*)\]", body):
                 s = vm.group(1).strip()
                 vals.append([int(x) for x in s.split(",") if x.strip()] if s else [])
-            r["concrete_vals"] = vals
+            tests.append({"kind": kind, "desc": desc, "vals": vals})
+        r["playback_tests"] = [x for x in tests if x["kind"] != "cover"]
+        if r["playback_tests"]:
+            r["concrete_vals"] = r["playback_tests"][0]["vals"]
     if build_failed:
         for r in res.values():
             r["status"] = "BUILD_ERROR"
